@@ -1,6 +1,7 @@
 import RepidModel.Driver.State
 import RepidModel.Broker.MemHistory
 import RepidModel.Pred.C01
+import RepidModel.Pred.Broker
 
 namespace Repid.Driver
 open Repid Sexp Wire Mem
@@ -107,10 +108,10 @@ def mem : Handler := fun st cmd args =>
     if polls ≥ 1000 then none
     let r := consumeLoop (← toNat? c) (← catOf cat) (← mapM? toStr? topics) (fun _ => false) polls 0 q (← toInt? now)
     pure (setQ st n r.2.1, .list [.atom "res", ofOpt msgTo r.1, ofNat r.2.2, qTo r.2.1])
-  | "mem.finish", [n, order] => do
+  | "mem.finish", [n, c, order] => do
     let n ← toStr? n; let q ← getQ st n
     let perm ← permOf q.processing (← mapM? toStr? order)
-    let q' := finishA q perm
+    let q' := finishA q (← toNat? c) perm
     pure (setQ st n q', qTo q')
   | "mem.set", [n, qs] => do
     let n ← toStr? n; let q ← qOf qs; pure (setQ st n q, .atom "ok")
@@ -129,6 +130,17 @@ def mem : Handler := fun st cmd args =>
   | "c01.requeueOk", [qs, m] => do
     let m ← msgOf m
     pure (st, ofBool (Pred.C01.requeueOk (← qOf qs) m))
+  | "c05.notEarlyMs", [due, at_] => do
+    pure (st, ofBool (Pred.C05.notEarlyMs (← toOpt? toInt? due) (← toInt? at_)))
+  | "c05.latencyOk", [due, lf, at_, b] => do
+    pure (st, ofBool (Pred.C05.latencyOk (← toInt? due) (← toInt? lf) (← toInt? at_) (← toInt? b)))
+  | "c12.notExpiredAt", [at_, ts, ttl] => do
+    pure (st, ofBool (Pred.C12.notExpiredAt (← toInt? at_) (← toInt? ts) (← toOpt? toInt? ttl)))
+  | "c14.singleHolder", [bs] => do
+    let bs ← mapM? (fun | .list [c, i] => do pure ((← toNat? c), (← toStr? i)) | _ => none) bs
+    pure (st, ofBool (Pred.C14.singleHolder bs))
+  | "c15.inOrder", [e, d] => do
+    pure (st, ofBool (Pred.C15.inOrder (← mapM? toStr? e) (← mapM? toStr? d)))
   | _, _ => none
 
 end Repid.Driver
